@@ -87,7 +87,7 @@ func TestC11(t *testing.T) {
 var c12Cfg = GenCfg{
 	MinBlocks: 4, MaxBlocks: 12, MinOps: 5, MaxOps: 45,
 	W: map[string]int{"write": 14, "snap": 24, "remove": 8, "markrm": 8, "setcp": 6, "rmdirect": 8,
-		"reopen": 8, "reload": 2, "revert": 8, "mode": 4, "resize": 6},
+		"reopen": 8, "reload": 2, "revert": 8, "mode": 4, "resize": 6, "orphanseq": 3},
 	PunchStart: 20, MaxChainMin: 4, MaxChainMax: 8, DupNamePct: 25, AllowWO: true,
 }
 
@@ -110,7 +110,7 @@ func TestC12(t *testing.T) {
 var c16Cfg = GenCfg{
 	MinBlocks: 4, MaxBlocks: 24, MinOps: 5, MaxOps: 45,
 	W: map[string]int{"write": 34, "read": 6, "snap": 12, "resize": 18, "reopen": 8, "reload": 2,
-		"remove": 4, "revert": 3, "setcp": 2, "punch": 1},
+		"remove": 4, "revert": 3, "setcp": 2, "punch": 1, "orphanseq": 3},
 	PunchStart: 30, MaxChainMin: 6, MaxChainMax: 10,
 }
 
